@@ -50,6 +50,13 @@ static void* svr_owner(void* arg) { long i; U64 low = htop - 1; (void)arg; pthre
     hstop = 1; return NULL; }
 static void* svr_flipper(void* arg) { long me = (long)arg; pthread_barrier_wait(&bar);
     while (!hstop) (void)hf(inst[me], haddr, htop, 0); return NULL; }
+static fn hxchg; static U64 hdrained; static volatile long hadders;
+static void* mix_adder(void* arg) { long me = (long)arg, i; pthread_barrier_wait(&bar);
+    for (i = 0; i < hn; i++) (void)hf(inst[me], haddr, 1, 0);
+    __atomic_sub_fetch(&hadders, 1, __ATOMIC_SEQ_CST); return NULL; }
+static void* mix_drainer(void* arg) { (void)arg; pthread_barrier_wait(&bar);
+    while (__atomic_load_n(&hadders, __ATOMIC_SEQ_CST) > 0) hdrained += hxchg(inst[0], haddr, 0, 0) & hmask;
+    return NULL; }
 /* store buffering: thread 0 stores X[i] then loads Y[i], thread 1 stores Y[i] then loads X[i], for the same i at about the same
  * time.  With sequentially consistent atomic accesses at least one of the two loads sees the other thread's store. */
 #define SBN 1500
@@ -167,6 +174,24 @@ int main(int argc, char** argv) {
             printf("{\"op\":\"casinc%s\",\"threads\":%d,\"per_thread\":%ld,\"lost\":%llu,\"bad_final\":%d}\n", tags[k], nt, hn,
                    (unsigned long long)((((U64)nt * (U64)hn) & hmask) - final), final != (((U64)nt * (U64)hn) & hmask));
             hn = saved;
+        }
+        /* different read-modify-write operations on one cell: thread 0 drains it (exchange with 0) and adds up what it took out,
+         * the others add 1.  What was drained plus what is left is the number of additions (modulo the width), whichever way the
+         * two operations are implemented: an exchange that lands inside somebody's addition is lost or counted twice. */
+        for (k = 0; k < 7; k++) {
+            char nm[16]; long t2; U64 final, want;
+            snprintf(nm, sizeof nm, "xchg%s", tags[k]); hxchg = lookup(nm); snprintf(nm, sizeof nm, "add%s", tags[k]); hf = lookup(nm);
+            snprintf(nm, sizeof nm, "ld%s", tags[k]); hld = lookup(nm); snprintf(nm, sizeof nm, "st%s", tags[k]); hst = lookup(nm);
+            haddr = cells[k]; hmask = widths[k] == 64 ? ~(U64)0 : (((U64)1 << widths[k]) - 1); hstop = 0; hdrained = 0; hadders = nt - 1;
+            hst(&root, haddr, 0, 0);
+            pthread_barrier_init(&bar, NULL, (unsigned)nt);
+            pthread_create(&th[0], NULL, mix_drainer, NULL);
+            for (t2 = 1; t2 < nt; t2++) pthread_create(&th[t2], NULL, mix_adder, (void*)t2);
+            for (t2 = 0; t2 < nt; t2++) pthread_join(th[t2], NULL);
+            final = hld(&root, haddr, 0, 0) & hmask;
+            want = ((U64)(nt - 1) * (U64)hn) & hmask;
+            printf("{\"op\":\"mixrmw%s\",\"threads\":%d,\"per_thread\":%ld,\"lost\":%llu,\"bad_final\":%d}\n", tags[k], nt, hn,
+                   (unsigned long long)((want - ((hdrained + final) & hmask)) & hmask), ((hdrained + final) & hmask) != want);
         }
         for (k = 0; k < 7; k++) for (mode = 0; mode < 2; mode++) {
             char name[16]; U64 total = (U64)nt * (U64)hn, lost = 0, final; U64* all; U64 j, n = 0; int bad_final = 0;
